@@ -4,7 +4,7 @@ use std::io;
 
 pub use self::context::{Context, read_context};
 use crate::{
-    codecs::rans_nx16::ALPHABET_SIZE,
+    codecs::{alloc_zeroed, rans_nx16::ALPHABET_SIZE},
     io::reader::num::{read_u8, read_uint7_as},
 };
 
@@ -13,7 +13,7 @@ pub fn decode(mut src: &[u8], ctx: &Context<'_>) -> io::Result<Vec<u8>> {
 
     let rle_alphabet = read_rle_alphabet(&mut context_src)?;
 
-    let mut dst = vec![0; ctx.len];
+    let mut dst = alloc_zeroed(ctx.len)?;
     let mut iter = dst.iter_mut();
 
     while let Some(d) = iter.next() {
